@@ -9,7 +9,17 @@ package main
 //@ ghost var initDir string scratch
 //@ ghost var initWd string scratch
 
+//@ ghost var wantList bool scratch
+//@ ghost var wantStatus bool scratch
 //@ func run
+// C12: --list, --list-all and --status are queries: the tasks named on the command line are never run for them
+//@   init wantList := false
+//@   init wantStatus := false
+//@   site (ListOptions).ShouldListTasks#1 ghost wantList := result
+//@   site (ListOptions).ShouldListTasks#1 requires arg0 == listOptions                                          [C12]
+//@   site NewListOptions#1 requires arg0 == flags.List && arg1 == flags.ListAll                                 [C12]
+//@   site (*Executor).Status#0 ghost wantStatus := true
+//@   site (*Executor).Run#0 requires !wantList && !flags.Status                                                 [C12]
 //@   site args.Get#1 ghost posArgs := result.0
 //@   site filepathext.IsExtOnly#1 requires arg0 == posArgs[0]     -- the --init path is the first positional argument   [C19]
 // ".yml" / "dir/.yml" mean "Taskfile.yml" IN THE GIVEN DIRECTORY, and whatever was given is taken relative to
